@@ -146,6 +146,9 @@ var Kinds = []Kind{
 	{"reflect_value_empty", func() interface{} { return reflect.ValueOf("") }},
 	{"reflect_value_false", func() interface{} { return reflect.ValueOf(false) }},
 	{"nullable_nil", func() interface{} { return nullableFix{} }},
+	// String() / HTML() promoted from an embedded interface that is nil: printing the value calls them
+	{"embeds_nil_stringer", func() interface{} { return struct{ fmt.Stringer }{} }},
+	{"embeds_nil_htmler", func() interface{} { return struct{ plush.HTMLer }{} }},
 	// what pathFor looks for: ToPath / ToParam, Slug / ID fields (also nil, also promoted from a nil pointer)
 	{"pathable", func() interface{} { return pathableFix{"/px/1"} }},
 	{"pathable_nilptr", func() interface{} { return (*pathableFix)(nil) }},
